@@ -109,7 +109,7 @@ func or(a, b string) string {
 }
 
 func runC44(c *core.Ctx) {
-	c.Rule = "path universe P = all paths of depth <=3 over segments {a, b, ab} (39 paths); coverage is judged over all paths of depth <=4 (120 probes): cover(S) = {q : some p in S equals q or is a dot-prefix of q}. Normalize on ALL lists of <=3 paths (61e3): result covers the same set, is prefix-free, sorted segment-wise and Normalize is idempotent on it; Union and Intersect on ALL pairs of lists of <=2 paths (2.4e6) and all triples of single-path lists for the variadic form: cover equals the union / intersection of the covers and the result is normalized. New / Append / IsValid on all paths of depth <=3 over the field names of test and test3 TestAllTypes (singular message, repeated, map, oneof, scalar, unknown names, empty segments): accepted iff every segment names a field and every segment before the last is a singular message field"
+	c.Rule = "path universe P = all paths of depth <=3 over segments {a, b, ab} (39 paths); coverage is judged over all paths of depth <=4 (120 probes): cover(S) = {q : some p in S equals q or is a dot-prefix of q}. Normalize on ALL lists of <=3 paths (61e3): result covers the same set, is prefix-free, sorted segment-wise and Normalize is idempotent on it; Union and Intersect on ALL pairs of lists of <=2 paths (2.4e6) and all triples of single-path lists for the variadic form: cover equals the union / intersection of the covers and the result is normalized. New / Append / IsValid on all paths of depth <=3 over 24 segment names of test and test3 TestAllTypes (singular message, repeated, map, the key / value names of map entries, oneof, scalar, unknown names, empty segments): accepted iff every segment names a field and every segment before the last is a singular message field"
 	c.Exhaustive = true
 	P := pathUniverse(3)
 	probes := pathUniverse(4)
@@ -171,13 +171,15 @@ func runC44(c *core.Ctx) {
 	for _, name := range []string{"goproto.proto.test.TestAllTypes", "goproto.proto.test3.TestAllTypes"} {
 		mt := univ.MT(name)
 		m := mt.New().Interface()
-		segs := []string{"optional_int32", "singular_int32", "optional_nested_message", "singular_nested_message", "a", "corecursive", "repeated_nested_message", "repeated_int32", "map_string_nested_message", "oneof_nested_message", "oneof_uint32", "optional_foreign_message", "singular_foreign_message", "c", "d", "nosuch", "", "optional_nested_enum", "optional_string", "recursive_message"}
+		segs := []string{"optional_int32", "singular_int32", "optional_nested_message", "singular_nested_message", "a", "corecursive", "repeated_nested_message", "repeated_int32", "map_string_nested_message", "oneof_nested_message", "oneof_uint32", "optional_foreign_message", "singular_foreign_message", "c", "d", "nosuch", "", "optional_nested_enum", "optional_string", "recursive_message",
+			// the synthetic entry message of a map field has fields named key and value: a path must not walk into it
+			"key", "value", "map_int32_int32", "map_string_string"}
 		var paths []string
 		for _, s1 := range segs {
 			paths = append(paths, s1)
 			for _, s2 := range segs {
 				paths = append(paths, s1+"."+s2)
-				for _, s3 := range segs[:12] {
+				for _, s3 := range segs {
 					paths = append(paths, s1+"."+s2+"."+s3)
 				}
 			}
